@@ -690,9 +690,9 @@ class PendingAssign(PendingNode[Assign | AnnAssign]):
 
                 sub_target = sub_target.value
 
-                slice_upper = Constant(value=index - len(target.elts) + 1)
-                if slice_upper.value == 0:
-                    slice_upper = None
+                slice_upper = None
+                if index - len(target.elts) + 1 != 0:
+                    slice_upper = utils.int_literal(index - len(target.elts) + 1)
 
                 value_subscript = Call(
                     func=Name(id="list", ctx=Load()),
@@ -712,7 +712,7 @@ class PendingAssign(PendingNode[Assign | AnnAssign]):
                 if not have_starred:
                     _slice = Constant(value=index)
                 else:
-                    _slice = Constant(value=index - len(target.elts))
+                    _slice = utils.int_literal(index - len(target.elts))
 
                 value_subscript = Subscript(
                     value=tmp_value_name,
@@ -1028,7 +1028,7 @@ class PendingFunctionDef(_PendingCompoundStmt[FunctionDef]):
             args=self.converted_args,
             body=Subscript(
                 value=body_expr,
-                slice=Constant(value=-1),
+                slice=UnaryOp(op=USub(), operand=Constant(value=1)),
                 ctx=Load(),
             ),
         )
